@@ -56,7 +56,11 @@ PROP = {
              "brutal), (c) each side's own Hysteria-CC-RX declaration with its configured receive limit ('auto' when "
              "ignoring). A handshake is non-trivial when it completed with 233; distinct = distinct (server config, "
              "client config or header value). Thorough tier splits the world list over 12 processes (index mod 12); "
-             "bubbles of one process run one after the other with the collector run between them."),
+             "bubbles of one process run one after the other with the collector run between them. In every part the "
+             "congestion type and BBR profile are written into the Config in a fixed rotation of spellings (lower, "
+             "Capitalised, UPPER, mIxEd, empty where the default means the same); the hook report is compared with the "
+             "canonical meaning (lower-case type/profile). Spellings a tree rejects at NewServer/NewClient are skipped "
+             "and counted (none on the clean tree)."),
     "assumptions": [
         "the verif-tagged hook in core/internal/congestion/utils.go reports exactly what UseBrutal/UseBBR/UseConfigured "
         "hand to quic-go's SetCongestionControl (reno = default left in place); quic-go itself is trusted to use it",
@@ -65,5 +69,7 @@ PROP = {
         "2^64-1; optional whitespace around a value may or may not be stripped before parsing",
         "the authenticator's tx argument is the client's raw declaration by design and is only counted, not judged",
         "wire behaviour of the installed controllers is the subject of C11/C12, not of this check",
+        "congestion type / BBR profile are case-insensitive and empty means bbr / standard (what the tree's own config "
+        "validation accepts and utils.go documents)",
     ],
 }
